@@ -170,7 +170,7 @@ Path = List[PathElement]
 
 SyncBBForwardMessage = message_type("forward", ["current_path", "ub"])
 SyncBBBackwardMessage = message_type("backward", ["current_path", "ub"])
-SyncBBTerminateMessage = message_type("terminate", ["current_path", "ub"])
+SyncBBTerminateMessage = message_type("terminate", [])
 
 
 class SyncBBComputation(VariableComputation):
